@@ -289,6 +289,44 @@ func checkC06(c *Ctx, r *Report) {
 			dom(reg, addC, "conn registered in conns.m before Connected is dispatched", "handlers would not find the connection they are told about")
 			dom(refs, addC, "swarm references taken before Connected is dispatched", "")
 			dom(addC, start, "Connected is dispatched before the accept loop starts (no inbound stream before Connected)", "an inbound stream can be delivered before Connected")
+			// Swarm.Close waits on refs: between the registration (from which Close can find and close the connection,
+			// letting doClose's goroutine release its reference) and the Connected dispatch, a second reference must be
+			// outstanding — the one the accept loop releases. Both are taken in the critical section that registers.
+			isRefsCall := func(in ssa.Instruction, m string) bool {
+				ci, ok := in.(ssa.CallInstruction)
+				if !ok || calleeKey(ci) != "(*sync.WaitGroup)."+m {
+					return false
+				}
+				fl, base := fieldAddrOf(ci.Common().Args[0])
+				return fl != nil && fieldKeyOf(base, fl) == swarmP+".Swarm.refs"
+			}
+			parties := 0
+			for _, k := range []string{"(*" + swarmP + ".Conn).doClose", "(*" + swarmP + ".Conn).start"} {
+				if g := c.Fn(k); g != nil {
+					for _, a := range allAnon(g) {
+						if len(findInstrs(a, func(in ssa.Instruction) bool { _, d := in.(*ssa.Defer); return d && isRefsCall(in, "Done") })) > 0 {
+							parties++
+						}
+					}
+				}
+			}
+			lf := computeLockFlow(f, heldSet{})
+			k, isC := constInt(refs[0].(ssa.CallInstruction).Common().Args[1])
+			heldConns := func(h heldSet) bool {
+				for k := range h {
+					if strings.HasSuffix(k, ".conns.RWMutex") {
+						return true
+					}
+				}
+				return false
+			}
+			underLock := heldConns(lf.must[refs[0]]) && heldConns(lf.must[reg[0]])
+			lateAdd := 0
+			if g := c.Fn("(*" + swarmP + ".Conn).start"); g != nil {
+				lateAdd = len(findInstrs(g, func(in ssa.Instruction) bool { return isRefsCall(in, "Add") }))
+			}
+			r5.Check(isC && parties >= 2 && int(k) == parties && underLock && lateAdd == 0, sw+"addConn: one swarm reference per releasing party (doClose, accept loop) is taken in the critical section that registers the connection", instrPos(refs[0]), 3, "",
+				"Swarm.Close can find the registered connection, close it, and return before its Connected / Disconnected notifications are delivered", fmt.Sprintf("Add(%d) under conns lock=%v, releasing parties=%d, Add in Conn.start=%d", k, underLock, parties, lateAdd))
 		}
 	}
 	if f := r5.need("(*" + swarmP + ".Conn).doClose"); f != nil {
